@@ -11,6 +11,7 @@ import (
 	"github.com/tuneinsight/lattigo/v6/schemes/ckks"
 	"github.com/tuneinsight/lattigo/v6/utils/sampling"
 
+	"verif/ref"
 	"verif/uni"
 )
 
@@ -36,6 +37,10 @@ var (
 	// CKKS chains: enough modulus below the top for GetMinimumLevelForRefresh(128, scale, N, Q) to have room
 	ChainCK40 = Chain{"ck40", 4, []int{60, 50, 50, 40, 40, 40}, []int{61}}
 	ChainCK25 = Chain{"ck25", 5, []int{55, 50, 50, 25, 25}, []int{56}}
+	// Tight chains (primes just above a power of two): at level 2, Q is barely above N_parties * 2^logBound with
+	// logBound = 128+40, i.e. GetMinimumLevelForRefresh's answer leaves no slack (1 party: 2^168, 2 parties: 2^169)
+	ChainCKTight1 = Chain{"cktight1", 4, []int{-60, -54, -54, 40}, []int{61}}
+	ChainCKTight2 = Chain{"cktight2", 4, []int{-60, -55, -54, 40}, []int{61}}
 )
 
 // Moduli returns distinct primes of the requested sizes.
@@ -49,7 +54,11 @@ func (ch Chain) Moduli() (Q, P []uint64) {
 	}
 	pool := map[int][]uint64{}
 	for b, k := range need {
-		pool[b] = uni.Primes(ch.LogN, b, k)
+		if b < 0 { // negative size: the primes just ABOVE 2^|b|
+			pool[b] = ref.PrimesNear(uint64(1)<<uint(-b), uint64(1)<<uint(ch.LogN+2), k, false)
+		} else {
+			pool[b] = uni.Primes(ch.LogN, b, k)
+		}
 	}
 	take := func(b int) uint64 {
 		v := pool[b][0]
